@@ -76,6 +76,7 @@ class Screen(_raw_display_base.Screen):
 
         # These store the previous signal handlers after setting ours
         self._prev_sigcont_handler = None
+        self._sigcont_hooked = False  # SIGCONT is taken over only while suspended (see _sigtstp_handler)
         self._prev_sigtstp_handler = None
         self._prev_sigwinch_handler = None
 
@@ -100,6 +101,7 @@ class Screen(_raw_display_base.Screen):
     def _sigtstp_handler(self, signum: int, frame: FrameType | None = None) -> None:
         self.stop()  # Restores the previous signal handlers
         self._prev_sigcont_handler = self.signal_handler_setter(signal.SIGCONT, self._sigcont_handler)
+        self._sigcont_hooked = True
         # Handled by the previous handler.
         # If non-default, it may set its own SIGCONT handler which should hopefully call our own.
         os.kill(os.getpid(), signal.SIGTSTP)
@@ -138,7 +140,9 @@ class Screen(_raw_display_base.Screen):
         applications.
         """
         self.signal_handler_setter(signal.SIGTSTP, self._prev_sigtstp_handler or signal.SIG_DFL)
-        self.signal_handler_setter(signal.SIGCONT, self._prev_sigcont_handler or signal.SIG_DFL)
+        if self._sigcont_hooked:  # otherwise the SIGCONT handler is still the application's own
+            self.signal_handler_setter(signal.SIGCONT, self._prev_sigcont_handler or signal.SIG_DFL)
+            self._sigcont_hooked = False
         self.signal_handler_setter(signal.SIGWINCH, self._prev_sigwinch_handler or signal.SIG_DFL)
 
     def _mouse_tracking(self, enable: bool) -> None:
